@@ -830,8 +830,9 @@ class NativeLoop:
         L = st.vars['last_ops_length']
         rw = st.vars['ring_writes']
         k = z3.BitVec('k_ring', 64)
-        # (the content relation ring[k % len] == ip of op k is not carried: a symbolic modulus defeats the solvers;
-        #  each op's own ring store is checked at the next cut, the unrolling in build_run_result is bounded-only)
+        # (the content relation ring[k % len] == ip of op k is not carried HERE: a symbolic modulus defeats bit-blasting;
+        #  each op's own ring store is checked at the next cut, and props/ring_units.py carries the content relation from
+        #  that per-op store to the list built by last_ops_ring_to_list, in exact integer arithmetic)
         return [rw == n]
 
     def head_inv(self, st: CState, n) -> List[Any]:
